@@ -71,6 +71,15 @@ def custom(ctx):
         evals += len(cases) * 17
         line = out[0] if out else "(no output rc=%s)" % rc
         info["runs"].append("pinned: " + line)
+        # encoders given a destination of exactly the bytes they report (drv_frame.c):
+        # a fault there is a store outside the call's own output.  (Faults of decoders
+        # fed hostile streams without a length are not this property's business.)
+        fl = [o for o in out[1:] if o.startswith("FAULT frame_put ")]
+        if fl:
+            case = fl[0][6:].split(" ->")[0]
+            failures.append(("pinned", case, "a call accessed memory outside the exact-size buffers it was given (%s): with "
+                             "adjacent outputs owned by other threads this is a data race" % (fl[0][-40:] if fl else line), fl[0] if fl else line))
+            break
         m = re.search(r"mismatches=(\d+)", line)
         if rc != 0 or not m or int(m.group(1)) != 0:
             p = ctx.save("C17-cases-%d.txt" % ctx.seed, "\n".join(cases) + "\n")
